@@ -290,13 +290,26 @@ func c18RunOp(o C18Op, shared []*tensor.Dense, sharedM []Arr, priv **tensor.Dens
 		}
 		return dig(s.Min(o.Arg % len(m.Shape)))
 	case "PrivateRefused":
-		// a call that is refused (a reuse tensor of the wrong size / element type), on tensors only this goroutine knows
+		// a call that is refused (a reuse tensor of the wrong size / element type), on tensors only this goroutine
+		// knows; now and then tensors of one of the specialised engines
 		a, b2 := fresh([]int{2, 3}, int64(o.Arg%5)), fresh([]int{2, 3}, 3)
 		var r *tensor.Dense
 		if o.Arg%2 == 0 {
 			r = fresh([]int{7}, 1)
 		} else {
 			r = tensor.New(tensor.Of(tensor.Bool), tensor.WithShape(2, 3))
+		}
+		switch o.Arg % 3 {
+		case 1:
+			a, b2 = engFresh("f32", []int{2, 3}, int64(o.Arg%5)), engFresh("f32", []int{2, 3}, 3)
+			if o.Arg%2 == 0 {
+				r = engFresh("f32", []int{7}, 1)
+			}
+		case 2:
+			a, b2 = engFresh("f64", []int{2, 3}, int64(o.Arg%5)), engFresh("f64", []int{2, 3}, 3)
+			if o.Arg%2 == 0 {
+				r = engFresh("f64", []int{7}, 1)
+			}
 		}
 		_, err := tensor.Add(a, b2, tensor.WithReuse(r))
 		if err == nil {
@@ -305,6 +318,9 @@ func c18RunOp(o C18Op, shared []*tensor.Dense, sharedM []Arr, priv **tensor.Dens
 		return "refused"
 	case "PrivateReuse":
 		a, b2, r := fresh([]int{2, 3}, int64(o.Arg%5)), fresh([]int{2, 3}, int64(o.Arg%3)), fresh([]int{2, 3}, 9)
+		if e := []string{"", "f32", "f64", ""}[(o.Arg/2)%4]; e != "" {
+			a, b2, r = engFresh(e, []int{2, 3}, int64(o.Arg%5)), engFresh(e, []int{2, 3}, int64(o.Arg%3)), engFresh(e, []int{2, 3}, 9)
+		}
 		var res tensor.Tensor
 		var err error
 		if o.Arg%2 == 0 {
@@ -326,6 +342,15 @@ func c18RunOp(o C18Op, shared []*tensor.Dense, sharedM []Arr, priv **tensor.Dens
 		return "returned"
 	}
 	panic("HARNESS: unknown C18 op " + o.Op)
+}
+
+// engFresh: a private tensor of one of the specialised engines.
+func engFresh(eng string, shape []int, base int64) *tensor.Dense {
+	d := engDT(eng)
+	a := seqArr(d, shape, base)
+	t := tensor.New(tensor.WithShape(shape...), tensor.WithBacking(mkBacking(d, a.E)))
+	withEngine(t, eng)
+	return t
 }
 
 var raceLogOffset int64
